@@ -22,6 +22,9 @@ type scriptIn struct {
 	ID   int      `json:"id"`
 	Stim []string `json:"stim"`
 	Pre  bool     `json:"pre"`
+	// Burst: the script contains groups "x+y" applied back to back (several select cases ready at once). The
+	// implementation may then legitimately end up where a later stimulus no longer applies: the script just ends there.
+	Burst bool `json:"burst"`
 }
 
 type scriptResult struct {
@@ -43,7 +46,7 @@ func contains(xs []string, x string) bool {
 // runScript replays one stimulus script under the forced schedule: the next stimulus is applied only when the
 // implementation has nothing left to do for the previous one (every wait is on a hook event).
 func runScript(sc scriptIn) scriptResult {
-	w, err := newWorld(worldOpts{forced: true, hnFail: contains(sc.Stim, "hfail"), preexisting: sc.Pre, dseq: uint64(1000 + sc.ID)})
+	w, err := newWorld(worldOpts{forced: true, hnFail: strings.Contains(strings.Join(sc.Stim, " "), "hfail"), preexisting: sc.Pre, dseq: uint64(1000 + sc.ID)})
 	if err != nil {
 		if w != nil {
 			w.close()
@@ -54,38 +57,34 @@ func runScript(sc scriptIn) scriptResult {
 	status := "ok"
 	nman := 0
 	inapplicable := ""
-	apply := func(st string) bool {
+	// act performs one stimulus without waiting for its consequences; applicable=false: the gate it wants to open is
+	// not closed (yet)
+	act := func(st string) (applicable bool) {
 		switch st {
 		case "m":
 			nman++
 			if err := w.pubManifest(nman); err != nil {
 				status = "stuck: publish: " + err.Error()
-				return false
 			}
 		case "c":
 			if err := w.pubClosed(); err != nil {
 				status = "stuck: publish: " + err.Error()
-				return false
 			}
 		case "s":
 			w.reqShutdown()
 		case "hok", "hfail":
-			if !w.releaseHostnames() {
-				inapplicable = st
-				return false
-			}
+			return w.releaseHostnames()
 		case "dok", "derr":
-			if !w.releaseCall("Deploy", map[string]string{"dok": "ok", "derr": "err"}[st]) {
-				inapplicable = st
-				return false
-			}
+			return w.releaseCall("Deploy", map[string]string{"dok": "ok", "derr": "err"}[st])
 		case "tok", "terr":
-			if !w.releaseCall("Teardown", map[string]string{"tok": "ok", "terr": "err"}[st]) {
-				inapplicable = st
-				return false
-			}
+			return w.releaseCall("Teardown", map[string]string{"tok": "ok", "terr": "err"}[st])
 		default:
-			inapplicable = st
+			return false
+		}
+		return true
+	}
+	settle := func(st string) bool {
+		if status != "ok" {
 			return false
 		}
 		if err := w.waitStable(stepTimeout); err != nil {
@@ -94,6 +93,23 @@ func runScript(sc scriptIn) scriptResult {
 		}
 		w.observeStable()
 		return true
+	}
+	// apply: one stimulus, or a burst "x+y+..": the members are applied back to back so that several select cases are
+	// ready at the same time and the real select picks; a member whose gate is not closed yet waits for stability first.
+	apply := func(st string) bool {
+		members := strings.Split(st, "+")
+		for k, m := range members {
+			if !act(m) {
+				if k == 0 || !settle(m) || !act(m) {
+					inapplicable = m
+					return false
+				}
+			}
+			if status != "ok" {
+				return false
+			}
+		}
+		return settle(st)
 	}
 	for _, st := range sc.Stim {
 		if !apply(st) {
@@ -134,7 +150,7 @@ func runScript(sc scriptIn) scriptResult {
 	head.ID, head.Pre, head.Script = sc.ID, sc.Pre, strings.Join(sc.Stim, " ")
 	out := []rec{head}
 	out = append(out, recs...)
-	if inapplicable != "" {
+	if inapplicable != "" && !sc.Burst {
 		r := blank("inapplicable", "H", 0)
 		r.R = inapplicable
 		out = append(out, r)
